@@ -23,13 +23,15 @@ use swimos_agent_protocol::encoding::lane::{
     RawMapLaneRequestDecoder, RawMapLaneResponseEncoder, RawValueLaneRequestDecoder, RawValueLaneResponseEncoder,
 };
 use swimos_agent_protocol::{LaneRequest, LaneResponse, MapMessage, MapOperation};
-use swimos_api::agent::{Agent, AgentConfig, AgentContext, AgentInitResult, LaneConfig, WarpLaneKind};
+use swimos_api::agent::{Agent, AgentConfig, AgentContext, AgentInitResult, LaneConfig, StoreKind, WarpLaneKind};
 use swimos_api::error::{AgentInitError, AgentRuntimeError, AgentTaskError};
 use swimos_utilities::byte_channel::{ByteReader, ByteWriter};
 use swimos_utilities::routing::RouteUri;
 use tokio::sync::{mpsc, oneshot};
 use tokio_util::codec::{FramedRead, FramedWrite};
 use uuid::Uuid;
+
+use crate::items::{open_store, StoreSpec};
 
 #[derive(Clone, Copy, Debug, PartialEq, Eq, Hash)]
 pub enum Kind {
@@ -78,6 +80,50 @@ pub enum LaneCtl {
 pub enum AgentCtl {
     /// Register lane `i` now (dynamic path).
     Register(usize),
+    /// Request store item `i` now (`AgentContext::add_store` from the running agent).
+    RegisterStore(usize),
+}
+
+/// Misbehaviour of an item (lane or store item, harness code) during the initialisation handshake.
+/// Whatever the item does, the runtime must either fail in a defined way or restore exactly; it
+/// must never treat the item as initialised without its acknowledgement.
+#[derive(Clone, Copy, Debug, PartialEq, Eq, Hash)]
+pub enum InitFault {
+    /// The agent drops the registration future after the request was sent (the promise is dropped).
+    DropPromise,
+    /// The item holds its channels and reads nothing for two initialisation time-outs, then reads
+    /// what is there and never acknowledges.
+    NeverReads,
+    /// Reads this many initialisation messages, then drops both channels.
+    DropAfter(usize),
+    /// Reads everything up to `InitComplete`, then drops both channels.
+    DropAtComplete,
+    /// Reads everything up to `InitComplete`, then drops its writer (keeps reading).
+    DropWriterAtComplete,
+    /// Reads everything up to `InitComplete` and never acknowledges.
+    Mute,
+    /// Reads everything up to `InitComplete`, then sends a byte that is not `Initialized`.
+    Garbage,
+    /// Acknowledges this many ms (virtual) after `InitComplete`.
+    SlowAck(u64),
+    /// The item behaves; the store refuses `id_for` of its name (IO error).
+    IdError,
+}
+
+impl InitFault {
+    pub fn name(&self) -> &'static str {
+        match self {
+            InitFault::DropPromise => "drop-promise",
+            InitFault::NeverReads => "never-reads",
+            InitFault::DropAfter(_) => "drop-after-n",
+            InitFault::DropAtComplete => "drop-at-complete",
+            InitFault::DropWriterAtComplete => "drop-writer-at-complete",
+            InitFault::Mute => "mute",
+            InitFault::Garbage => "garbage-ack",
+            InitFault::SlowAck(_) => "slow-ack",
+            InitFault::IdError => "id-error",
+        }
+    }
 }
 
 #[derive(Clone, Debug)]
@@ -135,12 +181,18 @@ pub struct LaneRec {
     pub write_error: Option<u64>,
     /// The runtime closed the lane's request channel.
     pub closed: Option<u64>,
+    /// How a planned misbehaviour of the handshake went (ticket, what the item did / saw).
+    pub fault_outcome: Option<(u64, String)>,
+    /// Store items: `add_store` was answered `StoresNotSupported`.
+    pub not_supported: Option<u64>,
 }
 
 pub type SharedLane = Arc<Mutex<LaneRec>>;
 
 pub struct AgentShared {
     pub lanes: Vec<SharedLane>,
+    /// Records of the store items (same shape as a lane's: registration, handshake, writes).
+    pub stores: Vec<SharedLane>,
     /// (ticket, ok) when the scripted return of the agent future happened.
     pub returned: Mutex<Option<(u64, bool)>>,
     pub init_error: Mutex<Option<String>>,
@@ -386,12 +438,15 @@ fn nz(n: usize) -> NonZeroUsize {
 
 /// Registers one lane (whichever phase the agent is in) and performs the initialisation handshake
 /// of a persistent lane: the runtime replays the stored state and sends `InitComplete`; the lane
-/// answers `Initialized`. `None`: the registration failed (recorded).
+/// answers `Initialized`. `None`: the registration failed (recorded) or the lane misbehaved as
+/// planned (`fault`; `hold_ms` is the runtime's item initialisation time-out).
 async fn register(
     add: BoxFuture<'static, Result<(ByteWriter, ByteReader), AgentRuntimeError>>,
     spec: LaneSpec,
     rec: SharedLane,
     ctl: mpsc::UnboundedReceiver<LaneCtl>,
+    fault: Option<InitFault>,
+    hold_ms: u64,
 ) -> Option<Lane> {
     let (tx, rx) = match add.await {
         Ok(io) => io,
@@ -423,7 +478,16 @@ async fn register(
     // The runtime performs the handshake with every non-transient value/map lane; a transient lane
     // is driven at once (it must not wait for an `InitComplete` that never comes).
     if !lane.spec.transient {
+        if fault == Some(InitFault::NeverReads) {
+            tokio::time::sleep(std::time::Duration::from_millis(2 * hold_ms + 1)).await;
+        }
+        let mut items = 0usize;
         loop {
+            if let Some(InitFault::DropAfter(n)) = fault {
+                if items >= n {
+                    return lane.give_up(format!("dropped both channels after {items} initialisation messages"));
+                }
+            }
             let r = lane.rd.as_mut().expect("reader").next().await;
             let t = ticket();
             match r {
@@ -432,10 +496,12 @@ async fn register(
                     break;
                 }
                 Some(Req::Value(b)) => {
+                    items += 1;
                     lane.current = b.clone();
                     lane.rec.lock().init_items.push((t, InitItem::Value(b)));
                 }
                 Some(Req::MapUpdate(k, v)) => {
+                    items += 1;
                     lane.map.insert(k.clone(), v.clone());
                     lane.rec.lock().init_items.push((t, InitItem::Entry(k, v)));
                 }
@@ -452,26 +518,88 @@ async fn register(
                     let mut g = lane.rec.lock();
                     g.reg_error = Some((t, "initialisation channel closed".to_string()));
                     g.reg_error_at = Some(tokio::time::Instant::now());
+                    if fault.is_some() {
+                        g.fault_outcome = Some((t, format!("channel closed by the runtime after {items} initialisation messages, before InitComplete")));
+                    }
                     drop(g);
                     return None;
                 }
             }
+        }
+        match fault {
+            Some(InitFault::DropAfter(_)) | Some(InitFault::DropAtComplete) => {
+                return lane.give_up("dropped both channels after InitComplete".to_string());
+            }
+            Some(InitFault::DropWriterAtComplete) => {
+                lane.wr = None;
+                lane.await_close().await;
+                return lane.give_up("dropped the writer after InitComplete".to_string());
+            }
+            Some(InitFault::Mute) | Some(InitFault::NeverReads) => {
+                lane.await_close().await;
+                return lane.give_up("never acknowledged".to_string());
+            }
+            Some(InitFault::Garbage) => {
+                use tokio::io::AsyncWriteExt;
+                let sent = match lane.wr.as_mut() {
+                    Some(Wr::Value(w)) => w.get_mut().write_all(&[0x7f]).await.is_ok(),
+                    Some(Wr::Map(w)) => w.get_mut().write_all(&[0x7f]).await.is_ok(),
+                    None => false,
+                };
+                lane.await_close().await;
+                return lane.give_up(format!("sent a byte that is not Initialized (accepted: {sent})"));
+            }
+            Some(InitFault::SlowAck(ms)) => tokio::time::sleep(std::time::Duration::from_millis(ms)).await,
+            Some(InitFault::DropPromise) | Some(InitFault::IdError) | None => {}
         }
         if !lane.write_frame(Emitted::Initialized, 0).await {
             let t = ticket();
             let mut g = lane.rec.lock();
             g.reg_error = Some((t, "could not acknowledge the initialisation".to_string()));
             g.reg_error_at = Some(tokio::time::Instant::now());
+            if fault.is_some() {
+                g.fault_outcome = Some((t, "the acknowledgement was refused (the runtime had closed the channel)".to_string()));
+            }
             drop(g);
             return None;
         }
         lane.rec.lock().initialized_sent = Some(ticket());
+        if fault.is_some() {
+            lane.rec.lock().fault_outcome = Some((ticket(), "acknowledged".to_string()));
+        }
     }
     Some(lane)
 }
 
+impl Lane {
+    /// A planned misbehaviour ends the lane: recorded like a failed registration.
+    fn give_up(self, what: String) -> Option<Lane> {
+        let t = ticket();
+        let mut g = self.rec.lock();
+        g.reg_error = Some((t, format!("planned misbehaviour: {what}")));
+        g.reg_error_at = Some(tokio::time::Instant::now());
+        g.fault_outcome = Some((t, what));
+        drop(g);
+        None
+    }
+
+    /// Reads (and records as stray) until the runtime closes the request channel.
+    async fn await_close(&mut self) {
+        while let Some(rd) = self.rd.as_mut() {
+            match rd.next().await {
+                None | Some(Req::DecodeError(_)) => {
+                    self.rec.lock().closed = Some(ticket());
+                    self.rd = None;
+                }
+                Some(_) => self.rec.lock().stray.push((ticket(), "request during a failed handshake".to_string())),
+            }
+        }
+    }
+}
+
 pub struct Controls {
     pub lane_ctl: Vec<mpsc::UnboundedReceiver<LaneCtl>>,
+    pub store_ctl: Vec<mpsc::UnboundedReceiver<LaneCtl>>,
     pub agent_ctl: mpsc::UnboundedReceiver<AgentCtl>,
     pub return_rx: oneshot::Receiver<bool>,
 }
@@ -480,6 +608,14 @@ pub struct RawAgent {
     pub specs: Vec<LaneSpec>,
     /// Lane `i` is registered by the running agent task (on `AgentCtl::Register(i)`), not during initialisation.
     pub dynamic: Vec<bool>,
+    /// Planned misbehaviour of lane `i` in its initialisation handshake.
+    pub faults: Vec<Option<InitFault>>,
+    /// Store items, how each is requested (by the running agent / during initialisation) and its planned misbehaviour.
+    pub stores: Vec<StoreSpec>,
+    pub store_dynamic: Vec<bool>,
+    pub store_faults: Vec<Option<InitFault>>,
+    /// The runtime's item initialisation time-out (how long a silent item holds on).
+    pub hold_ms: u64,
     pub shared: Arc<AgentShared>,
     /// Taken by the (single) run of the agent.
     pub ctl: Mutex<Option<Controls>>,
@@ -501,6 +637,13 @@ fn lane_config(spec: &LaneSpec) -> LaneConfig {
     LaneConfig { input_buffer_size: nz(spec.in_buf), output_buffer_size: nz(spec.out_buf), transient: spec.transient }
 }
 
+fn store_kind(kind: Kind) -> StoreKind {
+    match kind {
+        Kind::Value => StoreKind::Value,
+        Kind::Map => StoreKind::Map,
+    }
+}
+
 fn warp(kind: Kind) -> WarpLaneKind {
     match kind {
         Kind::Value => WarpLaneKind::Value,
@@ -518,29 +661,75 @@ impl Agent for RawAgent {
     ) -> BoxFuture<'static, AgentInitResult> {
         let specs = self.specs.clone();
         let dynamic = self.dynamic.clone();
+        let faults = self.faults.clone();
+        let stores = self.stores.clone();
+        let store_dynamic = self.store_dynamic.clone();
+        let store_faults = self.store_faults.clone();
+        let hold_ms = self.hold_ms;
         let shared = self.shared.clone();
         let taken = self.ctl.lock().take();
         let jitter = self.jitter.lock().take();
         async move {
-            let Some(Controls { lane_ctl, mut agent_ctl, mut return_rx }) = taken else {
+            let Some(Controls { lane_ctl, store_ctl, mut agent_ctl, mut return_rx }) = taken else {
                 return Err(AgentInitError::FailedToStart);
             };
             let mut lane_ctl: Vec<Option<mpsc::UnboundedReceiver<LaneCtl>>> = lane_ctl.into_iter().map(Some).collect();
+            let mut store_ctl: Vec<Option<mpsc::UnboundedReceiver<LaneCtl>>> = store_ctl.into_iter().map(Some).collect();
             // Initialisation phase: the lanes that are not dynamic, in order.
             let mut lanes: FuturesUnordered<BoxFuture<'static, ()>> = FuturesUnordered::new();
+            // Store items never end by themselves (the runtime does not talk to them after the
+            // handshake): they are dropped with the agent task.
+            let mut items: FuturesUnordered<BoxFuture<'static, ()>> = FuturesUnordered::new();
             for (idx, spec) in specs.iter().enumerate() {
                 if dynamic[idx] {
                     continue;
                 }
                 let rec = shared.lanes[idx].clone();
                 rec.lock().reg_requested = Some(ticket());
-                let add = context.add_lane(&spec.name, warp(spec.kind), lane_config(spec));
+                let mut add = context.add_lane(&spec.name, warp(spec.kind), lane_config(spec));
                 let Some(ctl) = lane_ctl[idx].take() else { continue };
-                match register(add, spec.clone(), rec.clone(), ctl).await {
+                let fault = faults.get(idx).copied().flatten();
+                if fault == Some(InitFault::DropPromise) {
+                    // The request is sent, the answer is not waited for.
+                    let _ = futures::poll!(&mut add);
+                    drop(add);
+                    rec.lock().fault_outcome = Some((ticket(), "registration future dropped after the request was sent".to_string()));
+                    continue;
+                }
+                match register(add, spec.clone(), rec.clone(), ctl, fault, hold_ms).await {
                     Some(lane) => lanes.push(lane.run().boxed()),
                     None => {
                         let why = rec.lock().reg_error.clone().map(|(_, e)| e).unwrap_or_default();
                         *shared.init_error.lock() = Some(format!("lane {}: {why}", spec.name));
+                        return Err(AgentInitError::FailedToStart);
+                    }
+                }
+            }
+            for (idx, spec) in stores.iter().enumerate() {
+                if store_dynamic[idx] {
+                    continue;
+                }
+                let rec = shared.stores[idx].clone();
+                rec.lock().reg_requested = Some(ticket());
+                let mut add = context.add_store(&spec.name, store_kind(spec.kind));
+                let Some(ctl) = store_ctl[idx].take() else { continue };
+                let fault = store_faults.get(idx).copied().flatten();
+                if fault == Some(InitFault::DropPromise) {
+                    let _ = futures::poll!(&mut add);
+                    drop(add);
+                    rec.lock().fault_outcome = Some((ticket(), "request future dropped after the request was sent".to_string()));
+                    continue;
+                }
+                match open_store(add, spec.clone(), rec.clone(), ctl, fault, hold_ms).await {
+                    Some(item) => items.push(item.run().boxed()),
+                    None => {
+                        // Without persistence the runtime answers "stores not supported": the agent
+                        // goes on without the item (what `swimos_agent` does: the store runs transient).
+                        if rec.lock().not_supported.is_some() {
+                            continue;
+                        }
+                        let why = rec.lock().reg_error.clone().map(|(_, e)| e).unwrap_or_default();
+                        *shared.init_error.lock() = Some(format!("store {}: {why}", spec.name));
                         return Err(AgentInitError::FailedToStart);
                     }
                 }
@@ -573,12 +762,37 @@ impl Agent for RawAgent {
                                     let (Some(spec), Some(ctl)) = (specs.get(idx).cloned(), lane_ctl.get_mut(idx).and_then(|c| c.take())) else { continue };
                                     let rec = shared.lanes[idx].clone();
                                     rec.lock().reg_requested = Some(ticket());
-                                    let add = context.add_lane(&spec.name, warp(spec.kind), lane_config(&spec));
+                                    let mut add = context.add_lane(&spec.name, warp(spec.kind), lane_config(&spec));
+                                    let fault = faults.get(idx).copied().flatten();
+                                    if fault == Some(InitFault::DropPromise) {
+                                        let _ = futures::poll!(&mut add);
+                                        drop(add);
+                                        rec.lock().fault_outcome = Some((ticket(), "registration future dropped after the request was sent".to_string()));
+                                        continue;
+                                    }
                                     // The new lane's registration and handshake run next to the lanes
                                     // that already exist (they keep being served meanwhile).
                                     lanes.push(async move {
-                                        if let Some(lane) = register(add, spec, rec, ctl).await {
+                                        if let Some(lane) = register(add, spec, rec, ctl, fault, hold_ms).await {
                                             lane.run().await
+                                        }
+                                    }.boxed());
+                                }
+                                Some(AgentCtl::RegisterStore(idx)) => {
+                                    let (Some(spec), Some(ctl)) = (stores.get(idx).cloned(), store_ctl.get_mut(idx).and_then(|c| c.take())) else { continue };
+                                    let rec = shared.stores[idx].clone();
+                                    rec.lock().reg_requested = Some(ticket());
+                                    let mut add = context.add_store(&spec.name, store_kind(spec.kind));
+                                    let fault = store_faults.get(idx).copied().flatten();
+                                    if fault == Some(InitFault::DropPromise) {
+                                        let _ = futures::poll!(&mut add);
+                                        drop(add);
+                                        rec.lock().fault_outcome = Some((ticket(), "request future dropped after the request was sent".to_string()));
+                                        continue;
+                                    }
+                                    items.push(async move {
+                                        if let Some(item) = open_store(add, spec, rec, ctl, fault, hold_ms).await {
+                                            item.run().await
                                         }
                                     }.boxed());
                                 }
@@ -586,6 +800,7 @@ impl Agent for RawAgent {
                             }
                         }
                         _ = lanes.next(), if !lanes.is_empty() => {}
+                        _ = items.next(), if !items.is_empty() => {}
                     }
                 }
             };
